@@ -20,9 +20,11 @@
       whatever blank or comment-only lines lie between them, contribute the pieces joined by
       single blanks — for a break made at a blank after `- , ; =` that is the rule text itself;
     * `C21`: composition of the above.
-  PARTIAL: `stripComments` on a line is characterised only through the correspondence suite
-  (random layouts with `# % //` comments), not by a theorem; so `C21` takes "the stripped
-  lines are these pieces" as a hypothesis.
+    * `strip_comments_exact`, `line_of_piece`: a line made of indentation, a piece of a rule
+      (`CleanPiece`: not blank at its ends, brackets closed, no `#`, `%`, `//` outside brackets, not
+      ending in a slash), blanks and an optional `#` / `%` / `//` comment is stripped to exactly
+      that piece; a blank or comment-only line to nothing — so the hypothesis of `C21` about
+      the stripped lines is discharged for every such layout.
 -/
 import SuironVerif.Lemmas.ReaderLemmas
 namespace Suiron.C21
@@ -100,6 +102,44 @@ theorem layout_of_rule : ∀ (ps : List Text) (last : Text),
     rw [h2]
     simp
 
+/-- comment stripping: indentation, trailing blanks and a trailing comment are removed, nothing else -/
+theorem strip_comments_exact {p indent trail comment : Text} (hp : CleanPiece p)
+    (hi : ∀ c ∈ indent, isWs c = true) (ht : ∀ c ∈ trail, isWs c = true) (hc : IsComment comment) :
+    stripComments (indent ++ p ++ trail ++ comment) = p :=
+  stripComments_line hp hi ht hc
+
+/-- what such a line contributes to the joined text: the piece, and one blank unless it ends the rule -/
+theorem line_of_piece {p indent trail comment : Text} (hp : CleanPiece p)
+    (hi : ∀ c ∈ indent, isWs c = true) (ht : ∀ c ∈ trail, isWs c = true) (hc : IsComment comment) :
+    lineText (indent ++ p ++ trail ++ comment) = p ++ (if p.getLast? == some '.' then [] else [' ']) := by
+  have hne : p.isEmpty = false := by cases p with | nil => exact absurd rfl hp.ne | cons a b => rfl
+  unfold lineText
+  simp only [stripComments_line hp hi ht hc, hne, Bool.false_eq_true, if_false]
+
+/-- a line that holds only blanks and a comment contributes nothing -/
+theorem comment_line_ignored {indent comment : Text} (hi : ∀ c ∈ indent, isWs c = true)
+    (hc : (∃ r, comment = '#' :: r) ∨ (∃ r, comment = '%' :: r)) : lineText (indent ++ comment) = [] := by
+  have s1 := commentStart_ws indent 0 {} hi
+  have hstrip : stripComments (indent ++ comment) = [] := by
+    unfold stripComments
+    rw [commentStart_append _ _ _ _ s1.1]
+    rcases hc with ⟨r, rfl⟩ | ⟨r, rfl⟩
+    · simp only [commentStart, s1.2.1, s1.2.2.1, show (('#' : Char) == '(') = false from by decide, show (('#' : Char) == '[') = false from by decide,
+        show (('#' : Char) == ')') = false from by decide, show (('#' : Char) == ']') = false from by decide, Bool.false_eq_true, if_false,
+        show (({} : StripSt).round == 0 && ({} : StripSt).square == 0) = true from rfl, if_true, show (('#' : Char) == '#' || ('#' : Char) == '%') = true from by decide]
+      rw [List.take_left' (by simp)]
+      have e : indent.dropWhile isWs = [] := by simpa using dropWhile_ws_append (rest := []) hi
+      unfold trim trimEnd trimStart
+      rw [e]; rfl
+    · simp only [commentStart, s1.2.1, s1.2.2.1, show (('%' : Char) == '(') = false from by decide, show (('%' : Char) == '[') = false from by decide,
+        show (('%' : Char) == ')') = false from by decide, show (('%' : Char) == ']') = false from by decide, Bool.false_eq_true, if_false,
+        show (({} : StripSt).round == 0 && ({} : StripSt).square == 0) = true from rfl, if_true, show (('%' : Char) == '#' || ('%' : Char) == '%') = true from by decide]
+      rw [List.take_left' (by simp)]
+      have e : indent.dropWhile isWs = [] := by simpa using dropWhile_ws_append (rest := []) hi
+      unfold trim trimEnd trimStart
+      rw [e]; rfl
+  simp [lineText, hstrip]
+
 /-- blank and comment-only lines contribute nothing -/
 theorem blank_line_ignored (l : Text) (h : stripComments l = []) : lineText l = [] := by
   simp [lineText, h]
@@ -121,6 +161,9 @@ theorem C21 (pr : Text → Res Rule) (file : Text) (rs : List Text)
     rules continued over several lines is read as its two rules -/
 example : OneRule "f($X) :- $X = 1.5, g([a.b], \"x.y\").".toList :=
   ⟨⟨2, by decide, by decide +kernel⟩, by intro c hc; simp at hc; subst hc; decide⟩
+
+example : CleanPiece "g($X) :- f($X, [a/b, #]),".toList :=
+  ⟨by decide, by intro a h; simp at h; subst h; decide, by intro a h; simp at h; subst h; decide, by decide +kernel, by decide +kernel⟩
 
 example : readRules ("# facts\nf(1.5).  % one\n\ng($X) :- f($X),\n    // note\n    $X =\n  2.\n").toList
     = .ok ["f(1.5).".toList, "g($X) :- f($X), $X = 2.".toList] := by decide +kernel
